@@ -293,6 +293,7 @@ def encRep (S : Schema) (num m : Nat) : List Val → Bytes
   | [] => []
   | v :: vs => (match v with
       | .msg fs => lenDelim num (encFields S (S.fieldsOf m) fs)
+      | .none => lenDelim num []   -- a nil *T element: both Go encoders write an empty record (ill-typed)
       | _ => []) ++ encRep S num m vs
 end
 
@@ -341,6 +342,7 @@ def sizeRep (S : Schema) (num m : Nat) : List Val → Nat
   | [] => 0
   | v :: vs => (match v with
       | .msg fs => sizeLenDelim num (sizeFields S (S.fieldsOf m) fs)
+      | .none => sizeLenDelim num 0
       | _ => 0) + sizeRep S num m vs
 end
 
